@@ -343,6 +343,7 @@ func (lw *liveWorld) runConn(n int, ccfg *tls.Config) *connObs {
 			}
 			o.frontAccepted, o.frontPresented = conn.ECHAccepted(), conn.ECHPresented()
 			o.frontName, o.frontALPN = conn.ServerName(), conn.ALPNProtos()
+			scribbleALPN(conn)
 			if lw.pubs[o.frontName] {
 				// the public-name server terminates here and holds the ECH keys
 				o.routedPublic = true
